@@ -219,6 +219,19 @@ class Ctx:
                 if k < len(thms):
                     res["assumptions"][thms[k]] = names
                 k += 1
+        if self.tier == "thorough" and not os.environ.get("VERIF_NO_COQCHK"):
+            # independent re-check of the compiled property file and everything it depends on
+            mod = "QV." + relfile[:-2].replace("/", ".")
+            rc2, o2, e2 = sh(["coqchk", "-o", "-silent", "-Q", "theories", "QV", mod], cwd=COQ, timeout=3000)
+            summ = (o2 + e2)
+            i = summ.find("CONTEXT SUMMARY")
+            res["coqchk"] = {"rc": rc2, "summary": " ".join(summ[i:].split())[:1500] if i >= 0 else summ[-800:]}
+            self.trusted.append("coqchk -o %s: rc=%d %s" % (mod, rc2, res["coqchk"]["summary"][:600]))
+            if rc2 != 0:
+                res["ok"] = False
+                res["log"] = "coqchk failed: " + summ[-2000:]
+                self.discharged -= len(thms)
+                self.coq_failed.append(relfile + " (coqchk)")
         for t in thms:
             ax = res["assumptions"].get(t)
             self.trusted.append("%s: %s" % (t, "closed under the global context" if ax == [] else
